@@ -16,7 +16,7 @@
 (* are recorded in `bad`, the model adopts the logged state and the rest of *)
 (* the trace is still checked.  The driver maps aspects to properties.      *)
 (***************************************************************************)
-EXTENDS Z80Int, Json, IOUtils, FiniteSets
+EXTENDS Z80Run, Json, IOUtils
 
 TraceLog == ndJsonDeserialize(IOEnv.TRACE)
 MaxBad == 40
@@ -25,8 +25,9 @@ VARIABLES l,     \* next line of TraceLog
           c,     \* the model's CPU/bus context
           bad,   \* sequence of [line, aspects] for rejected events
           cov,   \* instruction-class tag -> number of accepted steps
+          rs,    \* progress of the Run call being expanded (silent steps)
           done
-vars == <<l, c, bad, cov, done>>
+vars == <<l, c, bad, cov, rs, done>>
 
 RegOrder == <<"A", "F", "B", "C", "D", "E", "H", "L", "A_", "F_", "B_", "C_", "D_", "E_", "H_", "L_",
               "IXH", "IXL", "IYH", "IYL", "SP", "PC", "I", "R">>
@@ -50,7 +51,7 @@ Overlay(cells, m) == CellsOf(cells) @@ m
 InitCtx(ev) ==
   [r |-> RegsOf(ev.r), m |-> CellsOf(ev.cells),
    dev |-> [mk |-> ev.dev[1], seed |-> ev.dev[2], val |-> ev.dev[3], len |-> ev.dev[4]],
-   io |-> [ik |-> ev.io[1], seed |-> ev.io[2], len |-> ev.io[3]], iom |-> CellsOf(ev.iocells),
+   io |-> [ik |-> ev.io[1], seed |-> ev.io[2], len |-> ev.io[3]], iom |-> CellsOf(ev.iocells), nin |-> 0,
    rd |-> <<>>, wr |-> <<>>, pio |-> <<>>, halt |-> ev.h = 1, hc |-> <<0, 0>>,
    ovl |-> NoOvl, v |-> 0, u |-> 0, ralt |-> FALSE, tag |-> "", pend |-> PendOf(ev.pend),
    aei |-> FALSE, rslack |-> 0]
@@ -107,16 +108,17 @@ Adopt(prev, o, ev) ==
                                              outs[i][2] = p /\ \A j \in (i + 1) .. Len(outs) : outs[j][2] # p
                                   IN outs[i][3]] @@ @
                           ELSE @,
+                  !.nin = @ + Ins(ev.pio),
                   !.aei = (o.tag = "EI"), !.tag = o.tag]
 
 Bump(f, k) == IF k \in DOMAIN f THEN [f EXCEPT ![k] = @ + 1] ELSE (k :> 1) @@ f
 
 ----------------------------------------------------------------------------
 Ev == TraceLog[l]
-IsEv(e) == l <= Len(TraceLog) /\ Ev.e = e /\ l' = l + 1 /\ done' = FALSE
+IsEv(e) == l <= Len(TraceLog) /\ Ev.e = e /\ l' = l + 1 /\ done' = FALSE /\ UNCHANGED rs
 
 TraceInit ==
-  /\ l = 1 /\ c = [tag |-> "uninitialised"] /\ bad = <<>> /\ cov = <<>> /\ done = FALSE
+  /\ l = 1 /\ c = [tag |-> "uninitialised"] /\ bad = <<>> /\ cov = <<>> /\ done = FALSE /\ rs = [on |-> FALSE]
 
 EvInit == IsEv("i") /\ c' = InitCtx(Ev) /\ UNCHANGED <<bad, cov>>
 
@@ -167,6 +169,81 @@ EvMirror ==
                        ELSE bad
              /\ cov' = Bump(cov, "REJECTED")
 
+----------------------------------------------------------------------------
+(* r  run : one CPU.Run call returned.  The specification computes the run  *)
+(* states the stop rule allows (RunResults) - or, for a cancelled run, the  *)
+(* Step boundaries with the logged number of bus accesses (Boundaries) -    *)
+(* and the logged result must be one of them.                               *)
+RunFuel == 30000
+SchedOf(s) == IF Len(s) = 0 THEN NoSched ELSE [at |-> s[1], pend |-> PendOf(SubSeq(s, 2, Len(s)))]
+BpOf(ev) == {ev.bp[i] : i \in 1 .. Len(ev.bp)}
+
+RunAspects(prev, x, ev) ==
+  LET lr == RegsOf(ev.r)  o == x.c
+      logged == CellsOf(ev.md)
+  IN (IF RegsBad(o, lr) THEN {"regs"} ELSE {})
+     \cup (IF lr.R \notin RunRAllowed(x) \/ o.r.I # lr.I THEN {"ir"} ELSE {})
+     \cup (IF o.halt # (ev.h = 1) THEN {"halt"} ELSE {})
+     \cup (IF \/ \E a \in DOMAIN logged : Peek(o, a) # logged[a]
+              \/ \E a \in DOMAIN o.m : a \notin DOMAIN logged /\ Peek(o, a) # Peek(prev, a)
+           THEN {"mem"} ELSE {})
+     \cup (IF x.pio # ev.pio THEN {"pio"} ELSE {})
+     \cup (IF Outs(x.pio) # Outs(ev.pio) THEN {"out"} ELSE {})
+     \cup (IF x.n # ev.nacc THEN {"nacc"} ELSE {})
+     \cup (IF <<o.hc[1] - prev.hc[1], o.hc[2] - prev.hc[2]>> # ev.hc THEN {"hc"} ELSE {})
+     \cup (IF o.pend # PendOf(ev.pend) THEN {"pend"} ELSE {})
+
+\* The iteration is done with silent TLC steps (one per Step of the run, the line is
+\* not consumed) so that long runs cost one small state each instead of a deep recursion.
+NoRun == [on |-> FALSE]
+RunTarget == IF Ev.err = "ctx" THEN Ev.nacc ELSE -1     \* cancelled runs: stop at the logged access count
+
+RunBegin ==
+  /\ l <= Len(TraceLog) /\ Ev.e = "r" /\ ~rs.on /\ ~done
+  /\ rs' = [on |-> TRUE, S |-> {RunStart(c, SchedOf(Ev.sched))}, D |-> {}, fuel |-> RunFuel]
+  /\ UNCHANGED <<l, c, bad, cov, done>>
+
+\* states still to be advanced: all live ones, or (cancelled run) those short of the access count
+RunGo == IF RunTarget < 0 THEN rs.S ELSE {x \in rs.S : x.n < RunTarget}
+
+RunIter ==
+  /\ rs.on /\ RunGo # {} /\ rs.fuel > 0
+  /\ LET bp == BpOf(Ev)
+         nx == UNION {StepAcc(x) : x \in RunGo}
+         fin == {x \in nx : Stops(x, bp) # "no"}
+         hits == IF RunTarget < 0 THEN {} ELSE {x \in rs.S : x.n = RunTarget}
+     IN rs' = [on |-> TRUE, S |-> nx \ fin, fuel |-> rs.fuel - 1,
+               D |-> IF RunTarget < 0 THEN rs.D \cup fin ELSE rs.D \cup hits]
+  /\ UNCHANGED <<l, c, bad, cov, done>>
+
+RunEnd ==
+  /\ rs.on /\ (RunGo = {} \/ rs.fuel = 0)
+  /\ l' = l + 1 /\ done' = FALSE /\ rs' = NoRun
+  /\ LET bp == BpOf(Ev)
+         all == IF RunTarget < 0 THEN rs.D ELSE rs.D \cup {x \in rs.S : x.n = RunTarget}
+         cands == IF Ev.err = "ctx" THEN all ELSE {x \in all : Stops(x, bp) = Ev.err}
+         best == IF cands # {}
+                 THEN CHOOSE x \in cands : \A y \in cands :
+                        Cardinality(RunAspects(c, x, Ev)) <= Cardinality(RunAspects(c, y, Ev))
+                 ELSE IF all # {} THEN CHOOSE x \in all : TRUE ELSE RunStart(c, NoSched)
+         asp == IF cands # {} THEN RunAspects(c, best, Ev)
+                ELSE IF all # {} THEN {"err"} \cup RunAspects(c, best, Ev)
+                ELSE IF rs.fuel = 0 THEN {"fuel"}
+                ELSE IF Ev.err = "ctx" THEN {"boundary"} ELSE {"err"}
+     IN /\ c' = [c EXCEPT !.r = RegsOf(Ev.r), !.m = Overlay(Ev.md, @), !.halt = Ev.h = 1,
+                          !.pend = PendOf(Ev.pend), !.hc = <<@[1] + Ev.hc[1], @[2] + Ev.hc[2]>>,
+                          !.nin = @ + Ins(Ev.pio), !.aei = best.c.aei, !.tag = "RUN"]
+        /\ IF asp = {} THEN bad' = bad /\ cov' = Bump(Bump(cov, "RUN " \o Ev.err), "RUN steps " \o
+                                                       (IF best.steps = 1 THEN "1" ELSE IF best.steps < 10 THEN "2-9" ELSE "10+"))
+           ELSE /\ bad' = IF Len(bad) < MaxBad
+                          THEN Append(bad, [line |-> l, asp |-> asp, tag |-> "RUN " \o Ev.err,
+                                            pc |-> best.c.r.PC, f |-> best.c.r.F, u |-> best.steps])
+                          ELSE bad
+                /\ cov' = Bump(cov, "REJECTED")
+
+EvRun == RunBegin \/ RunIter \/ RunEnd
+
+\* a Run that did not return (watchdog) - never a behaviour of a halting program (C12)
 EvRaise == IsEv("q") /\ c' = [c EXCEPT !.pend = PendOf(Ev.pend)] /\ UNCHANGED <<bad, cov>>
 
 EvPoke == IsEv("p") /\ c' = [c EXCEPT !.m = Overlay(Ev.cells, @)] /\ UNCHANGED <<bad, cov>>
@@ -174,9 +251,9 @@ EvPoke == IsEv("p") /\ c' = [c EXCEPT !.m = Overlay(Ev.cells, @)] /\ UNCHANGED <
 Done ==
   /\ l = Len(TraceLog) + 1 /\ ~done
   /\ PrintT(<<"TRACE-RESULT", ToJson([consumed |-> l - 1, bad |-> bad, cov |-> cov])>>)
-  /\ done' = TRUE /\ UNCHANGED <<l, c, bad, cov>>
+  /\ done' = TRUE /\ UNCHANGED <<l, c, bad, cov, rs>>
 
-TraceNext == EvInit \/ EvStep \/ EvRaise \/ EvPoke \/ EvPanic \/ EvMirror \/ Done
+TraceNext == EvInit \/ EvStep \/ EvRun \/ EvRaise \/ EvPoke \/ EvPanic \/ EvMirror \/ Done
 TraceSpec == TraceInit /\ [][TraceNext]_vars
 
 \* every line was consumed (a line no action can take would stop the run early)
